@@ -207,7 +207,7 @@ def lookups(p, q):
     return bad
 
 
-def judge_direct(p, q, data, lang, leg, control=False):
+def judge_direct(p, q, data, lang, leg, control=False, mutations=("erase", "overwrite")):
     """differences between p and q observed on the real code alone"""
     from src import utils
     diffs = []
@@ -239,7 +239,7 @@ def judge_direct(p, q, data, lang, leg, control=False):
         lk = lookups(p, q)
         if lk:
             diffs.append({"leg": "lookups", "detail": lk[:6]})
-        for which in ("erase", "overwrite"):
+        for which in mutations:
             mp, mq = mutate(p, lang, which, words), mutate(q, lang, which, words)
             if mp != mq:
                 det = first_json_diff(mp, mq)
@@ -274,7 +274,7 @@ class RealHash:
         return False
 
 
-def battery(p, lang, legs=("model", "A", "B"), defer=None):
+def battery(p, lang, legs=("model", "A", "B"), defer=None, mutations=("erase", "overwrite"), mutations_a=None):
     """everything C13 claims about one live program; returns {"summary", "diffs", "model_diffs"?, "unsupported"?}.
     `defer`: a list — the driver request is appended there instead of being run (see `collect`)"""
     out = {"summary": {}, "diffs": []}
@@ -300,7 +300,8 @@ def battery(p, lang, legs=("model", "A", "B"), defer=None):
             except eh.Unsupported as e:
                 out["unsupported"] = str(e)
         if "A" in legs:
-            out["diffs"] += judge_direct(p, q, data, lang, "harness")
+            out["diffs"] += judge_direct(p, q, data, lang, "harness",
+                                         mutations=mutations if mutations_a is None else mutations_a)
         if "B" in legs:
             with RealHash():
                 try:
@@ -309,7 +310,7 @@ def battery(p, lang, legs=("model", "A", "B"), defer=None):
                     if data_b != data:
                         out["diffs"].append({"leg": "redump-under-identity-hash", "hash": "identity",
                                              "detail": [len(data), len(data_b)]})
-                    out["diffs"] += judge_direct(pb, qb, data_b, lang, "identity", control=True)
+                    out["diffs"] += judge_direct(pb, qb, data_b, lang, "identity", control=True, mutations=mutations)
                 except Exception as e:  # noqa: BLE001
                     out["diffs"].append({"leg": "roundtrip-raises:" + type(e).__name__, "hash": "identity",
                                          "detail": traceback.format_exc()[-1200:]})
@@ -320,13 +321,29 @@ def battery(p, lang, legs=("model", "A", "B"), defer=None):
 
 
 # ------------------------------------------------------------------ plugin interface
+# which transformations are tried on the copies of a program saved at a stage (quick tier: the ones the pipeline
+# would apply next, and only under the identity hash; thorough: both, under both hashes)
+NEXT = {"gen": ("erase", "overwrite"), "erase": ("overwrite",), "overwrite": ("erase",)}
+
+
 def install(state, spec):
     state["legs"] = tuple(spec.get("c13_legs", ("model", "A", "B")))
+    state["full"] = bool(spec.get("c13_full", False))
     state["deferred"] = []
 
 
 def stage(state, name, program, st):
-    st["c13"] = battery(program, program.language, state["legs"], defer=state["deferred"])
+    # the per-program wall-clock cap of pipeline.run_one is meant for the pipeline, not for this battery
+    import signal
+    left = signal.setitimer(signal.ITIMER_REAL, 0)
+    try:
+        full = state["full"]
+        st["c13"] = battery(program, program.language, state["legs"], defer=state["deferred"],
+                            mutations=("erase", "overwrite") if full else NEXT.get(name, ("erase",)),
+                            mutations_a=None if full else ())
+    finally:
+        if left[0] > 0:
+            signal.setitimer(signal.ITIMER_REAL, left[0])
 
 
 def collect(state):
